@@ -92,7 +92,7 @@ package vm
 //@ func (t AccountTracker) Copy() AccountTracker
 //@   deterministic[C01.no_node_local_source]
 //@   modifies nothing
-//@   ensures[C03.tracker_copy_fresh] result != nil && fresh(result)
+//@   ensures[C03.tracker_copy_fresh,C02.sub_snapshot_revert] result != nil && fresh(result)
 //@   ensures[C03.tracker_copy_equal] forall a common.Address :: (a in result) == (a in t) && result[a] == t[a]
 //@   panics never
 //@ loop 1
@@ -118,7 +118,7 @@ package vm
 //@ func (l Logs) Copy() Logs
 //@   deterministic[C01.no_node_local_source]
 //@   modifies nothing
-//@   ensures[C03.logs_copy_nil] (l == nil) == (result == nil)
+//@   ensures[C03.logs_copy_nil,C02.sub_snapshot_revert] (l == nil) == (result == nil)
 //@   ensures[C03.logs_copy_fresh] l != nil ==> fresh(base(result))
 //@   ensures[C03.logs_copy_equal] len(result) == len(l) && (forall i int :: 0 <= i && i < len(l) ==> result[i] == l[i])
 //@   panics never
@@ -156,7 +156,7 @@ package vm
 //@   deterministic[C01.no_node_local_source]
 //@   requires alOk(al)
 //@   modifies contents(al.elements)
-//@   ensures[C03.al_add_address] result == !old(address in al.elements) && (forall a common.Address :: (a in al.elements) == (a == address || old(a in al.elements)))
+//@   ensures[C03.al_add_address,C02.sub_snapshot_revert] result == !old(address in al.elements) && (forall a common.Address :: (a in al.elements) == (a == address || old(a in al.elements)))
 //@   ensures[C03.al_add_address_slots] forall a common.Address :: al.elements[a] == old(al.elements[a])
 //@   ensures alOk(al)
 //@   panics never
@@ -166,7 +166,7 @@ package vm
 //@   deterministic[C01.no_node_local_source]
 //@   requires alOk(al)
 //@   modifies contents(al.elements), contents(al.elements[address])
-//@   ensures[C03.al_add_slot_flags] addrChange == !old(address in al.elements) && slotChange == !old(slot in al.elements[address])
+//@   ensures[C03.al_add_slot_flags,C02.sub_snapshot_revert] addrChange == !old(address in al.elements) && slotChange == !old(slot in al.elements[address])
 //@   ensures[C03.al_add_slot_view] (forall a common.Address :: (a in al.elements) == (a == address || old(a in al.elements))) && (forall a common.Address, s common.Hash :: (s in al.elements[a]) == ((a == address && s == slot) || old(s in al.elements[a])))
 //@   ensures[C03.al_add_slot_noshare] (forall a common.Address :: a != address ==> al.elements[a] == old(al.elements[a])) && al.elements[address] != nil && (al.elements[address] == old(al.elements[address]) || fresh(al.elements[address]))
 //@   ensures alOk(al)
@@ -176,7 +176,7 @@ package vm
 //@   deterministic[C01.no_node_local_source]
 //@   requires alOk(al)
 //@   modifies contents(al.elements), contents(al.elements[address])
-//@   ensures[C03.al_delete_slot] (forall a common.Address :: (a in al.elements) == old(a in al.elements)) && (forall a common.Address, s common.Hash :: (s in al.elements[a]) == (old(s in al.elements[a]) && !(a == address && s == slot)))
+//@   ensures[C03.al_delete_slot,C02.sub_snapshot_revert] (forall a common.Address :: (a in al.elements) == old(a in al.elements)) && (forall a common.Address, s common.Hash :: (s in al.elements[a]) == (old(s in al.elements[a]) && !(a == address && s == slot)))
 //@   ensures alOk(al)
 //@   panics[C03.al_delete_slot_panics] iff !(address in al.elements)
 
@@ -184,7 +184,7 @@ package vm
 //@   deterministic[C01.no_node_local_source]
 //@   requires alOk(al)
 //@   modifies contents(al.elements)
-//@   ensures[C03.al_delete_address] forall a common.Address :: (a in al.elements) == (a != address && old(a in al.elements)) && (a != address ==> al.elements[a] == old(al.elements[a]))
+//@   ensures[C03.al_delete_address,C02.sub_snapshot_revert] forall a common.Address :: (a in al.elements) == (a != address && old(a in al.elements)) && (a != address ==> al.elements[a] == old(al.elements[a]))
 //@   ensures alOk(al)
 //@   panics never
 
@@ -194,7 +194,7 @@ package vm
 //@   deterministic[C01.no_node_local_source]
 //@   requires al != nil
 //@   modifies nothing
-//@   ensures[C03.al_copy_fresh] result != nil && fresh(result) && result.elements != nil && fresh(result.elements) && (forall a common.Address :: result.elements[a] == nil || fresh(result.elements[a]))
+//@   ensures[C03.al_copy_fresh,C02.sub_snapshot_revert] result != nil && fresh(result) && result.elements != nil && fresh(result.elements) && (forall a common.Address :: result.elements[a] == nil || fresh(result.elements[a]))
 //@   ensures[C03.al_copy_equal] (forall a common.Address :: (a in result.elements) == (a in al.elements)) && (forall a common.Address, s common.Hash :: (s in result.elements[a]) == (s in al.elements[a]))
 //@   ensures[C03.al_copy_ok] alOk(result)
 //@   panics never
@@ -245,7 +245,7 @@ package vm
 //@ func (t transientStorage) Copy() transientStorage
 //@   deterministic[C01.no_node_local_source]
 //@   modifies nothing
-//@   ensures[C03.ts_copy_fresh] result != nil && fresh(result) && (forall a common.Address :: (a in result) ==> (result[a] != nil && fresh(result[a])))
+//@   ensures[C03.ts_copy_fresh,C02.sub_snapshot_revert] result != nil && fresh(result) && (forall a common.Address :: (a in result) ==> (result[a] != nil && fresh(result[a])))
 //@   ensures[C03.ts_copy_equal] forall a common.Address, k common.Hash :: (a in result) == (a in t) && (k in result[a]) == (k in t[a]) && result[a][k] == t[a][k]
 //@   ensures[C03.ts_copy_ok] tsOk(result)
 //@   panics never
@@ -261,7 +261,7 @@ package vm
 //@ func (t transientStorage) Clone() TransientStorage
 //@   deterministic[C01.no_node_local_source]
 //@   modifies nothing
-//@   ensures[C03.ts_clone] typeof(result) == type(transientStorage) && payload(result) != nil && fresh(payload(result)) && allocated(payload(result))
+//@   ensures[C03.ts_clone,C02.sub_snapshot_revert] typeof(result) == type(transientStorage) && payload(result) != nil && fresh(payload(result)) && allocated(payload(result))
 //@   ensures[C03.ts_clone_fresh] forall a common.Address :: (a in unbox(result, type(transientStorage))) ==> (unbox(result, type(transientStorage))[a] != nil && fresh(unbox(result, type(transientStorage))[a]))
 //@   ensures[C03.ts_clone_equal] forall a common.Address, k common.Hash :: (a in unbox(result, type(transientStorage))) == (a in t) && (k in unbox(result, type(transientStorage))[a]) == (k in t[a]) && unbox(result, type(transientStorage))[a][k] == t[a][k]
 //@   ensures[C03.ts_clone_ok] tsOk(unbox(result, type(transientStorage)))
@@ -305,7 +305,7 @@ package vm
 //@   deterministic[C01.no_node_local_source]
 //@   requires stateDb != nil && stateDb.accessList != nil && typeof(stateDb.transientStorage) == type(transientStorage)
 //@   modifies nothing
-//@   ensures[C03.rec_layer] lyrParent(layer(result.snapshotCtx)) == layer(workingCtx) && lyrDepth(layer(result.snapshotCtx)) == lyrDepth(layer(workingCtx)) + 1 && viewEq(layer(result.snapshotCtx), layer(workingCtx)) && hdr(result.snapshotCtx) == hdr(workingCtx)
+//@   ensures[C03.rec_layer,C02.sub_snapshot_revert] lyrParent(layer(result.snapshotCtx)) == layer(workingCtx) && lyrDepth(layer(result.snapshotCtx)) == lyrDepth(layer(workingCtx)) + 1 && viewEq(layer(result.snapshotCtx), layer(workingCtx)) && hdr(result.snapshotCtx) == hdr(workingCtx)
 //@   ensures[C03.rec_write_func] isWriteCache(result.writeFunc) && wcChild(result.writeFunc) == layer(result.snapshotCtx) && wcParent(result.writeFunc) == layer(workingCtx)
 //@   ensures[C03.rec_equal] trackerEq(result.touched, stateDb.touched) && trackerEq(result.selfDestructed, stateDb.selfDestructed) && alEq(result.accessList, stateDb.accessList) && logsEq(result.logs, stateDb.logs) && result.refund == stateDb.refund && typeof(result.transientStorage) == type(transientStorage) && tsEq(unbox(result.transientStorage, type(transientStorage)), unbox(stateDb.transientStorage, type(transientStorage)))
 //@   ensures[C03.rec_fresh] result.touched != nil && fresh(result.touched) && result.selfDestructed != nil && fresh(result.selfDestructed) && result.touched != result.selfDestructed && result.accessList != nil && fresh(result.accessList) && fresh(result.accessList.elements) && (forall a common.Address :: result.accessList.elements[a] == nil || fresh(result.accessList.elements[a])) && (stateDb.logs == nil ? result.logs == nil : fresh(base(result.logs))) && fresh(payload(result.transientStorage)) && allocated(payload(result.transientStorage)) && (forall a common.Address :: (a in unbox(result.transientStorage, type(transientStorage))) ==> fresh(unbox(result.transientStorage, type(transientStorage))[a]))
@@ -342,7 +342,7 @@ package vm
 //@   deterministic[C01.no_node_local_source]
 //@   requires sdbInv(d)
 //@   modifies d.currentCtx, d.snapshots, contents(d.snapshots)
-//@   ensures[C03.snap_id,C08.working_layer_only] result == old(len(d.snapshots)) - 1 && len(d.snapshots) == old(len(d.snapshots)) + 1
+//@   ensures[C03.snap_id,C08.working_layer_only,C02.sub_snapshot_revert] result == old(len(d.snapshots)) - 1 && len(d.snapshots) == old(len(d.snapshots)) + 1
 //@   ensures[C03.snap_older_records] forall i int :: (0 <= i && i < old(len(d.snapshots))) ==> d.snapshots[i] == old(d.snapshots[i])
 //@   ensures[C03.snap_record_touched] trackerEq(d.snapshots[result + 1].touched, d.touched) && trackerEq(d.snapshots[result + 1].selfDestructed, d.selfDestructed)
 //@   ensures[C03.snap_record_al] alEq(d.snapshots[result + 1].accessList, d.accessList)
@@ -368,7 +368,7 @@ package vm
 //@   deterministic[C01.no_node_local_source]
 //@   requires sdbInv(d)
 //@   modifies d.currentCtx, d.touched, d.refund, d.selfDestructed, d.accessList, d.logs, d.transientStorage, d.snapshots, contents(d.snapshots)
-//@   ensures[C03.revert_len,C08.working_layer_only] len(d.snapshots) == id + 2
+//@   ensures[C03.revert_len,C08.working_layer_only,C02.sub_snapshot_revert] len(d.snapshots) == id + 2
 //@   ensures[C03.revert_older_records] forall i int :: (0 <= i && i <= id) ==> d.snapshots[i] == old(d.snapshots[i])
 //@   ensures[C03.revert_record_kept] d.snapshots[id + 1].id == id && d.snapshots[id + 1].touched == old(d.snapshots[id + 1].touched) && d.snapshots[id + 1].selfDestructed == old(d.snapshots[id + 1].selfDestructed) && d.snapshots[id + 1].accessList == old(d.snapshots[id + 1].accessList) && d.snapshots[id + 1].logs == old(d.snapshots[id + 1].logs) && d.snapshots[id + 1].transientStorage == old(d.snapshots[id + 1].transientStorage) && d.snapshots[id + 1].refund == old(d.snapshots[id + 1].refund)
 //@   ensures[C03.revert_view] d.currentCtx == d.snapshots[id + 1].snapshotCtx && viewEq(layer(d.currentCtx), old(layer(d.snapshots[id].snapshotCtx))) && lyrParent(layer(d.currentCtx)) == old(layer(d.snapshots[id].snapshotCtx))
